@@ -81,7 +81,15 @@ def run_case(cls, params, rec):
 			generator=torch.Generator().manual_seed(params["iseed"]))
 		args = (a,)
 		if params["n_args"] > 1:
-			args = (a, torch.arange(n, dtype=torch.float64)[:, None] / 7)
+			b = torch.arange(n, dtype=torch.float64)[:, None] / 7
+			if params.get("scale_outlier"):
+				# one example whose activations (and example-reference
+				# differences) are ~1e7 times larger than those of the
+				# others, whose differences are scaled down to ~1e-3:
+				# anything computed "relative to the batch" shows
+				b = torch.full((n, 1), -1 + 1e-3, dtype=torch.float64)
+				b[params["scale_outlier"] % n] = 1e7
+			args = (a, b)
 	refmode = params["refmode"]
 	mode = params["mode"]
 	kw = dict(target=params["target"], device="cpu")
@@ -135,7 +143,8 @@ def run_case(cls, params, rec):
 	def compare(tag, idx, got, rows=None):
 		attr, ref = got
 		exp = b_attr[idx]
-		if not rel_close(attr, exp):
+		if attr.shape != exp.shape or not all(rel_close(attr[q], exp[q])
+			for q in range(len(idx))):
 			bad = [int(q) for q in range(len(idx)) if not rel_close(
 				attr[q], exp[q])] if attr.shape == exp.shape else "shape"
 			return dict(desc, what="attribution differs from the "
@@ -230,6 +239,8 @@ def gen_case(seed, k):
 	ns = r.randint(1, 5)
 	if k % 5 == 0:
 		n, ns = r.randint(2, 5), r.randint(2, 5)
+	if k % 4 == 2:
+		n = max(n, 2)
 	return {"A": A, "L": L, "spec": spec, "wseed": r.randrange(10 ** 6),
 		"n": n, "n_shuffles": ns, "target": r.randrange(dls.n_targets(spec)),
 		"iseed": r.randrange(10 ** 6), "n_args": r.choice([0, 0, 1, 2]),
@@ -237,7 +248,8 @@ def gen_case(seed, k):
 		"mode": r.choice(["processed", "raw", "hypothetical"]),
 		"return_references": r.random() < 0.5,
 		"random_state": r.randrange(1000),
-		"batch_size": r.randint(1, n * ns + 1)}
+		"batch_size": r.randint(1, n * ns + 1),
+		"scale_outlier": (1 + k) if k % 4 == 2 else 0}
 
 
 def plan(tier, seed):
@@ -250,4 +262,7 @@ def plan(tier, seed):
 def run_unit(unit, rec):
 	for k in range(unit["k0"], unit["k1"]):
 		params = gen_case(unit["seed"], k)
+		if params["scale_outlier"]:
+			params["n_args"] = 2
+			rec.count("scale_outlier_cases")
 		run_case("diff-" + params["refmode"], params, rec)
